@@ -33,6 +33,7 @@ class Variant:
     expect: object = None                        # rule id, tuple of rule ids, or None for benign
     note: str = ''
     also_ok: Sequence[str] = ()                  # other properties' rules are ignored anyway
+    patch: Optional[str] = None                  # a unified diff to apply instead of textual edits (seeded changes)
 
 
 def V(prop: str, name: str, file: str, old: str, new: str, expect=None, note: str = '') -> Variant:
@@ -43,7 +44,27 @@ def VM(prop: str, name: str, edits, expect=None, note: str = '') -> Variant:
     return Variant(prop, name, list(edits), expect, note)
 
 
-def collect(props: Optional[Sequence[str]] = None) -> list[Variant]:
+SEEDED = Path(__file__).resolve().parent.parent / 'seeded'
+
+
+def seed_variants(prop: str) -> list[Variant]:
+    """The seeded changes kept under /verif/seeded for this property: every seeded defect must make
+    the property's check fire ('*': any rule), every behaviour-preserving refactoring must leave it silent."""
+    out: list[Variant] = []
+    if not SEEDED.is_dir():
+        return out
+    for d in sorted(SEEDED.iterdir()):
+        if d.name.startswith(prop + '-') and (d / 'patch.diff').exists():
+            out.append(Variant(prop, f"seed:{d.name}", [], '*', patch=str(d / 'patch.diff')))
+    b = SEEDED / 'benign'
+    if b.is_dir():
+        for d in sorted(b.iterdir()):
+            if d.name.startswith(prop + '-') and (d / 'patch.diff').exists():
+                out.append(Variant(prop, f"refactoring:{d.name}", [], None, patch=str(d / 'patch.diff')))
+    return out
+
+
+def collect(props: Optional[Sequence[str]] = None, seeds: bool = True) -> list[Variant]:
     import importlib
     out: list[Variant] = []
     from .__main__ import ALL
@@ -53,6 +74,8 @@ def collect(props: Optional[Sequence[str]] = None) -> list[Variant]:
         except ModuleNotFoundError:
             continue
         out.extend(getattr(mod, 'VARIANTS', []))
+        if seeds:
+            out.extend(seed_variants(prop))
     return out
 
 
@@ -61,6 +84,14 @@ def _apply(repo: Path, scratch: Path, variant: Variant) -> Optional[str]:
     src = repo / 'src' / 'emsarray'
     dst = scratch / 'src' / 'emsarray'
     shutil.copytree(src, dst, ignore=shutil.ignore_patterns('__pycache__', '*.pyc'))
+    if variant.patch:
+        import subprocess
+        r = subprocess.run(['git', 'apply', variant.patch], cwd=scratch, capture_output=True, text=True)
+        if r.returncode != 0:
+            r = subprocess.run(['patch', '-p1', '--fuzz=3', '-s', '-i', variant.patch], cwd=scratch, capture_output=True, text=True)
+        if r.returncode != 0:
+            return 'the seeded patch no longer applies to this tree'
+        return None
     for rel, old, new in variant.edits:
         path = scratch / rel
         if not path.exists():
@@ -96,6 +127,8 @@ def run_variant(args) -> dict:
         expect = variant.expect
         if expect is None:
             ok = rc == 0
+        elif expect == '*':
+            ok = rc == 1
         else:
             exp = (expect,) if isinstance(expect, str) else tuple(expect)
             ok = rc == 1 and any(r in violated for r in exp)
